@@ -69,7 +69,12 @@ class Filtered(object):
         self._p = prefix
 
     def __iter__(self):
-        return iter([ObjSummary(self._s, o[0], o[1], o[2]) for o in self._s.objs if o[0].startswith(self._p)])
+        objs = [o for o in self._s.objs if o[0].startswith(self._p)]
+        if all(type(o[0]) is str for o in objs):
+            # S3 lists keys in lexicographic (UTF-8 binary) order, NOT in upload order; applied when the key texts are
+            # plain concrete strings (sorting symbolic texts would make the solver enumerate orders)
+            objs = sorted(objs, key=lambda o: o[0])
+        return iter([ObjSummary(self._s, o[0], o[1], o[2]) for o in objs])
 
     def delete(self):
         self._s.log.append(('delete_prefix', self._p))
